@@ -326,7 +326,8 @@ func checkC11(c *Ctx) {
 
 func checkC12(c *Ctx) {
 	c.R.Clauses = append(c.R.Clauses,
-		"L1/L3d: the Collector's stack is touched only under its mutex and no reference to it escapes", "X4: nil is never stored", "X3: one unwind preference in all three flattening sites", "F3: every ParsePanic branch carries ErrRecoveredPanic")
+		"L1/L3d: the Collector's stack is touched only under its mutex and no reference to it escapes", "X4: nil is never stored", "X3: one unwind preference in all three flattening sites", "F3: every ParsePanic branch carries ErrRecoveredPanic",
+		"D1s/D3s: a Stack head is only ever changed by the push primitive (err, next and count together), never overwritten by a node copy")
 	c.R.NotCov = append(c.R.NotCov, "errors.Is/As for every constituent over all error trees", "single-error identity", "Unwind order and multiplicity")
 	owners := map[string]bool{"erc.Collector": true}
 	lockRules(c, owners, map[string]int{"L1": 4})
@@ -334,6 +335,7 @@ func checkC12(c *Ctx) {
 	ruleX4(c)
 	ruleX3(c)
 	ruleF3(c)
+	ruleStackNode(c)
 }
 
 func checkC14(c *Ctx) {
@@ -366,7 +368,8 @@ func checkC15(c *Ctx) {
 
 func checkC16(c *Ctx) {
 	c.R.Clauses = append(c.R.Clauses,
-		"D1: list/stack nodes and headers are never copied by value", "D2/D2b: attach only detached elements, detach only members", "D3: forward and backward links change in pairs together with the length", "N3: no no-op relink", "D8: a container's root/head is only pointed at nodes that point back at it")
+		"D1: list/stack nodes and headers are never copied by value", "D2/D2b: attach only detached elements, detach only members", "D3: forward and backward links change in pairs together with the length", "N3: no no-op relink", "D8: a container's root/head is only pointed at nodes that point back at it",
+		"Q1: no traversal reads the sentinel's value", "D9: the root sentinel is never handed out", "Q3/Q4: values are written only by the node's own methods, and never into the sentinel", "Q6/Q7: sorting re-links the same elements")
 	c.R.NotCov = append(c.R.NotCov, "equality with a sequence model over operation sequences", "JSON", "iterator values", "nil-receiver safety")
 	dtp := map[string]bool{"dt": true}
 	ruleD1(c, dtp, 20)
@@ -375,6 +378,9 @@ func checkC16(c *Ctx) {
 	ruleN3(c, dtp)
 	ruleD8(c, dtp, 4)
 	ruleQ1(c, 10)
+	ruleD9(c, 20)
+	ruleQ34(c, 3)
+	ruleQ67(c)
 }
 
 func checkC17(c *Ctx) {
@@ -388,12 +394,15 @@ func checkC17(c *Ctx) {
 	ruleD8(c, dtp, 4)
 	ruleQ1(c, 10)
 	ruleQ2(c)
+	ruleQ5(c, 8)
+	ruleQ67(c)
 }
 
 func checkC18(c *Ctx) {
 	c.R.Clauses = append(c.R.Clauses,
 		"D6: index and order list change together", "L1/L2: hash and list are only touched under the set's mutex (per-variable lock identity: the other set's state needs the other set's lock)",
-		"L3d/L3b: iterators over the set's state leave only wrapped in WithLock, and the map is never ranged from another goroutine", "N1: the lock wrapper is not discarded", "D1 via List")
+		"L3d/L3b: iterators over the set's state leave only wrapped in WithLock, and the map is never ranged from another goroutine", "N1: the lock wrapper is not discarded", "D1 via List",
+		"D6c: sorting a set makes it ordered on every path", "Q7/Q3: the list sorts re-link the very elements the value→element index points at")
 	c.R.NotCov = append(c.R.NotCov, "agreement with a reference set", "Equal's answer", "JSON round trip", "insertion order")
 	owners := map[string]bool{"dt.Set": true}
 	ruleD6(c, 3)
@@ -401,6 +410,9 @@ func checkC18(c *Ctx) {
 	ruleL3dFor(c, map[string]bool{"dt": true}, 10)
 	ruleN1(c, map[string]bool{"dt": true}, 0)
 	ruleD1In(c, map[string]bool{"dt": true}, 5, "set.go")
+	ruleD6c(c)
+	ruleQ67(c)
+	ruleQ34(c, 3)
 }
 
 func checkC19(c *Ctx) {
@@ -443,5 +455,10 @@ func init() {
 		ruleV2(c)
 		ruleR1(c, allPkgs, 0)
 		ruleF9(c)
+		ruleD9(c, 0)
+		ruleQ34(c, 0)
+		ruleQ5(c, 0)
+		ruleQ67(c)
+		ruleD6c(c)
 	}
 }
